@@ -261,6 +261,7 @@ def main():
     ap.add_argument("--thorough", action="store_true")
     ap.add_argument("--replay")
     ap.add_argument("--no-rac", action="store_true")
+    ap.add_argument("--evidence-dir", default=os.path.join(ROOT, "evidence"))
     a = ap.parse_args()
     tier = "thorough" if a.thorough else "quick"
     prop = a.prop
@@ -410,8 +411,8 @@ def main():
     }
     if known:
         ev["coverage"]["known_findings"] = known
-    os.makedirs(os.path.join(ROOT, "evidence"), exist_ok=True)
-    json.dump(ev, open(os.path.join(ROOT, "evidence", prop + ".json"), "w"), indent=1)
+    os.makedirs(a.evidence_dir, exist_ok=True)
+    json.dump(ev, open(os.path.join(a.evidence_dir, prop + ".json"), "w"), indent=1)
     for r in results:
         print(f"[{r.unit}] {r.status} {r.reason} ({r.verus_ms} ms; {sum(1 for d in r.functions.values() if d['success'])} functions verified)")
     for r, e in violations:
